@@ -53,6 +53,7 @@ func vpH_T_concrete1() {
 func init() {
 	vpRegister("vpH_C01_build", vpH_C01_build)
 	vpRegister("vpH_C01_wide", vpH_C01_wide)
+	vpRegister("vpH_C01_later", vpH_C01_later)
 }
 
 func vpC01Check(g *vpGen, docs []*vpDoc, mode uint32) {
@@ -90,4 +91,31 @@ func vpH_C01_wide() {
 	mode := g.mode("b")
 	vpC01Check(g, docs, mode)
 	vpReach("C01 wide end")
+}
+
+// C01 for a segment that stays in memory while the (pooled) builder goes on to
+// build other batches with other field names: the first segment still
+// returns exactly what its batch implies.
+func vpH_C01_later() {
+	g := vpNewGen(0)
+	docs := g.batch("b", 1, 2, []int{2, 5, 7, 8})
+	g.done()
+	vpPoolReuse(true)
+	vpPoolFlush()
+	seg := vpBuild(docs, 1025)
+	later := [][]*vpDoc{
+		{{fields: []*vpField{{name: "_id", store: true, value: []byte("q"), length: 1, terms: []*vpTerm{{term: []byte("q"), freq: 1}}},
+			{name: "aa", store: true, value: []byte("v"), length: 1, terms: []*vpTerm{{term: []byte("k"), freq: 1}}},
+			{name: "zz", length: 1, terms: []*vpTerm{{term: []byte("k"), freq: 1, locs: []*vpLoc{{pos: 1, start: 2, end: 3}}}}}}}},
+		{{fields: []*vpField{{name: "aa", dv: true, length: 1, terms: []*vpTerm{{term: []byte("k"), freq: 1}}}}}},
+		{},
+	}[vpChoice("later-batch", 3)]
+	for n := 1 + vpChoice("later-builds", 2); n > 0; n-- {
+		vpBuild(later, 1)
+	}
+	vpPoolReuse(false)
+	exp := vpBuildExpect(docs, nil)
+	obs := vpObserve(seg, []string{"zz"}, []string{"q"})
+	vpMatchesModel("built, after later builds", obs, exp, vpMatchOpts{})
+	vpReach("C01 later end")
 }
